@@ -131,6 +131,26 @@ impl<T: PartialOrd> FromSpecImpl<RangeToInclusive<T>> for Interval<T> {
 //@|     (Interval::LowerOneSided(h), Interval::LowerOneSided(h2)) => cloned(h, h2),
 //@|     _ => false },
 //@endimpl
+// ---- integer projections low_i / high_i / low_u / high_u (generic T): num_traits' `min_value` / `max_value` are DECLARED here as a
+// model trait (signatures restated: a dependency's trait is outside /repo); the missing side projects to that extreme value
+pub trait BoundedModel: Sized {
+    spec fn min_spec() -> Self;
+    spec fn max_spec() -> Self;
+    fn min_value() -> (r: Self) ensures r == Self::min_spec();
+    fn max_value() -> (r: Self) ensures r == Self::max_spec();
+}
+//@impl src/interval.rs impl<T: num_traits::PrimInt + num_traits::Signed> Interval<T> => impl<T: PartialOrd + Copy + BoundedModel> Interval<T>
+//@fn low_i ret r
+//@| ensures r == match *self { Interval::TwoSided(l, _) => l, Interval::UpperOneSided(l) => l, Interval::LowerOneSided(_) => T::min_spec() },
+//@fn high_i ret r
+//@| ensures r == match *self { Interval::TwoSided(_, h) => h, Interval::LowerOneSided(h) => h, Interval::UpperOneSided(_) => T::max_spec() },
+//@endimpl
+//@impl src/interval.rs impl<T: num_traits::PrimInt + num_traits::Unsigned> Interval<T> => impl<T: PartialOrd + Copy + BoundedModel> Interval<T>
+//@fn low_u ret r
+//@| ensures r == match *self { Interval::TwoSided(l, _) => l, Interval::UpperOneSided(l) => l, Interval::LowerOneSided(_) => T::min_spec() },
+//@fn high_u ret r
+//@| ensures r == match *self { Interval::TwoSided(_, h) => h, Interval::LowerOneSided(h) => h, Interval::UpperOneSided(_) => T::max_spec() },
+//@endimpl
 //@include prelude/interval_int_projections.rs
 // vacuity guard: must FAIL (the runner checks that it does)
 proof fn canary_must_fail<T: PartialOrd>() requires total_order::<T>(), unbounded::<T>() ensures false {}
